@@ -80,6 +80,9 @@ func (c c16) Generate(seed uint64, tier string, idx int) *core.Plan {
 		}
 		a[sChKind], a[sChLen], a[sSeed] = int64(r.Intn(2)), int64(chLens[r.Intn(len(chLens))]), int64(r.Intn(1<<30))
 		a[sDelay], a[sAnon] = int64(r.Intn(10))*1_000_000, -2
+		if t == 3 && r.Bool(25) {
+			a = append(a, 0, int64(r.Range(1, 2))) // sBlindRef, sBlindClass: a blind at or above the group order
+		}
 		p.Steps = append(p.Steps, core.Step{Op: "sess", A: a})
 		hops := []int{world.KReq, world.KResp}
 		if t == 3 {
@@ -249,6 +252,20 @@ func (c c16) direct(p *core.Plan, w *world.World, res *core.Result, spare int, p
 			bkb := r.Bytes(size)
 			bkb[0] = 0
 			bkb[1] |= 1
+			switch r.Intn(6) {
+			case 0: // key bytes at or above the group order, or wider than it
+				for i := range bkb {
+					bkb[i] = 0xff
+				}
+			case 1:
+				bkb = cv.Params().N.FillBytes(make([]byte, size))
+			case 2:
+				bkb = append([]byte{0x01}, bkb...)
+			case 3:
+				for i := range skb {
+					skb[i] = 0xff
+				}
+			}
 			sk, _ := ecdsa.CreateKey(cv, ar.Put("signing-key-bytes", skb))
 			bk, _ := ecdsa.CreateKey(cv, ar.Put("blind-key-bytes", bkb))
 			ctx := ar.Put("context", r.Bytes(ctxLen))
